@@ -26,6 +26,7 @@ type traceCtx struct {
 	reduceAt     int
 	restartEvery int
 	limit        int
+	newEvents    bool
 }
 
 var ctx traceCtx
@@ -37,6 +38,15 @@ func onNewSolver(s *solver.Solver, pb *solver.Problem) {
 		s.VerifSetKnobs(ctx.reduceAt, ctx.restartEvery)
 	}
 	if ctx.on {
+		if ctx.newEvents && len(ctx.events) < ctx.limit { // a solver created inside the library (explain, maxsat): record its problem
+			d := DumpProblem(pb)
+			cl := [][]int{}
+			for _, c := range d["cons"].([]M) {
+				cl = append(cl, c["lits"].([]int))
+			}
+			ctx.events = append(ctx.events, M{"k": "new", "lit": 0, "lvl": 0, "dec": false, "lits": []int{}, "w": []int{}, "d": 0, "lrn": false, "tl": 0,
+				"units": d["units"], "clauses": cl})
+		}
 		s.VerifSetTrace(func(ev solver.VerifEvent) {
 			ctx.mu.Lock()
 			if len(ctx.events) < ctx.limit {
